@@ -127,4 +127,18 @@ PROPS = {
         "assumptions": ["the forward error bound of the fused multiply-add evaluation is stated, not proved (a Flocq development would be needed); it is only used for non-grid inputs",
                         "sin/cos come from libm; the theorem needs c^2+s^2=1, the check measures it within 2^-50"],
     },
+    "C14": {
+        "translators": ["t2c"],
+        "count": {"quick": 120, "thorough": 1200},
+        "rule": "random structures (ragged, sometimes with empty containers) with coordinates on a 1/8 grid (compact or spread clouds, one atom in eight "
+                "coincident with its predecessor), so that squared distances are exact: bounding box; chains_in_contact with cut-offs k/8+1/16 (never equal to "
+                "an attainable distance), maps compared after sorting; atom tree and hierarchy tree: contain every atom exactly once (identity by address), "
+                "three radius queries each with r^2 = j/64+1/128 compared with the brute-force scan, ancestors of every returned tuple compared with the "
+                "nested traversal, nearest-neighbour iteration compared with the sorted squared distances; Atom::distance both ways checked to be the "
+                "correctly rounded square root of the exact sum of squares; overlaps / overlaps_bound against the regenerated radii table; "
+                "distance_wrapping and overlaps_bound_wrapping for atom pairs inside random orthogonal cells against the minimum over the 27 images.  "
+                "non-trivial = non-empty result / structure with at least two atoms; distinct = distinct case line",
+        "assumptions": ["rstar's contract (bulk_load keeps every object, locate_within_distance = filter by distance_2 <= r^2, nearest_neighbor_iter sorted by distance_2) is a hypothesis of C14_rtree_brute_force and exercised here, not proved",
+                        "sqrt is correctly rounded (IEEE 754), fused multiply-add exact on grid inputs"],
+    },
 }
